@@ -224,18 +224,20 @@ class Session:
         return out
 
     # -- probe values --------------------------------------------------------------------------
-    def probe_value(self, annotation: Any, name: str = "") -> Any:
+    def probe_value(self, annotation: Any, name: str = "", _depth: int = 0) -> Any:
         """A plausible value for a signature annotation (used only to provoke the request during discovery)."""
         tp = annotation
+        if _depth > 6:
+            return None
         origin = typing.get_origin(tp)
         if origin is typing.Annotated:
-            return self.probe_value(typing.get_args(tp)[0], name)
+            return self.probe_value(typing.get_args(tp)[0], name, _depth + 1)
         if origin is typing.Union or str(origin) == "<class 'types.UnionType'>":
             args = [a for a in typing.get_args(tp) if a is not type(None)]
-            return self.probe_value(args[0], name) if args else None
+            return self.probe_value(args[0], name, _depth + 1) if args else None
         if origin in (list, typing.List):
             (a,) = typing.get_args(tp) or (str,)
-            return [self.probe_value(a, name)]
+            return [self.probe_value(a, name, _depth + 1)]
         if origin is dict:
             return {}
         if origin is typing.Literal:
@@ -269,7 +271,7 @@ class Session:
                     hints = {}
                 for f in dataclasses.fields(tp):
                     if f.default is dataclasses.MISSING and f.default_factory is dataclasses.MISSING and f.init:
-                        kw[f.name] = self.probe_value(hints.get(f.name, str), f.name)
+                        kw[f.name] = self.probe_value(hints.get(f.name, str), f.name, _depth + 1)
                 return tp(**kw)
         return "x"
 
